@@ -201,6 +201,14 @@ Theorem C18_print_parse : forall a, wf_addr a ->
 Proof. exact print_parse. Qed.
 Print Assumptions C18_print_parse.
 
+(* re-using an address object: whatever was decoded into it before (accepted or refused), the
+   outcome of decode_address is that of a fresh Address(x) — the model has no state to inherit;
+   the correspondence (object-history cases) ties this to the code *)
+Theorem C18_decode_history_independent : forall h h' x,
+  decode_on h x = decode_on h' x /\ decode_on h x = address1 x.
+Proof. intros. split; reflexivity. Qed.
+Print Assumptions C18_decode_history_independent.
+
 (* ---------------------------------------------------------------- equality and hash *)
 Theorem C18_eq_equivalence :
   (forall a, eqb a a = true) /\ (forall a b, eqb a b = eqb b a) /\
